@@ -44,7 +44,14 @@ func (m *M) opMark(t *rapid.T) {
 		if p.tip.Height < 1 {
 			t.Skip("chain too short")
 		}
-		k := rapid.IntRange(0, min(p.tip.Height-1, m.depth)).Draw(t, "depth")
+		maxK := min(p.tip.Height-1, m.depth)
+		if m.f.RealDepth {
+			// the headers removed with the mark are re-offered one by one after an unmark: keep
+			// the removed chain short enough for that (150 covers MaxBranchDepth 144 and both
+			// sides of it)
+			maxK = min(maxK, 150)
+		}
+		k := rapid.IntRange(0, maxK).Draw(t, "depth")
 		node = p.bestChain[p.tip.Height-k]
 		what = fmt.Sprintf("best-chain header at depth %d", k)
 	case 1: // side branch header
